@@ -16,7 +16,13 @@ TECHNIQUE = ("runtime round-trip monitor: write -> read identity through the rea
 LEVEL_TEXT = ("Exploration: title sets mixing known and unknown names, 1..2000 rows, magnitudes 1e-12..1e12, +-0.0, header "
               "parameters of all three types; parameter dictionaries with ints, floats (repr exact), strings including the hostile classes "
               "(strings that spell numbers, names with hyphens); grain lists 0..50 with/without translation/name/npks; 1..5 save/load "
-              "cycles; HDF5 overwrite with the same and a different length.")
+              "cycles; HDF5 overwrite with the same and a different length. Added histories: every HDF5 columnfile writer form "
+              "(name, open h5py.File, from a text file with name=None, colfileobj_to_hdf, gzip-compressed) x reader form (named, "
+              "autodetected group, columnfile(h5), mmap_h5colf), a second write with ANOTHER TITLE SET (fewer / more / disjoint / "
+              "overlapping, same or other length), colfileobj_to_hdf twice; grain.to_h5py_group onto existing groups, "
+              "write_grain_file_h5 twice, nested group names, readubis on grain files and read_grain_file on ubi files; the text "
+              "reader on blank lines, two title lines, a truncated last row, no trailing newline, tabs, header names with brackets "
+              "and values containing '='; sparse frames written twice into one group (same / other nnz, uint16 / uint32 indices).")
 LEVEL_NOTE = ("Precision table: FLOATS 0.5e-4 abs, LONGFLOATS 0.5e-12 abs, INTS exact for integer-valued data, EXPONENTIALS 0.5e-4 "
               "rel, unknown titles 0.5e-6 abs (+1 ulp); grain names compared after rstrip and counts after int() as the library "
               "itself consumes them.")
@@ -399,6 +405,7 @@ def sparse_case(run, seed, idx, sparseframe):
 
 def check(run, replay=None):
     from ImageD11 import columnfile, parameters, grain, indexing, sparseframe
+    from .. import c18_more
     if replay is not None:
         cs = replay["case"]
         k = cs["kind"]
@@ -408,6 +415,14 @@ def check(run, replay=None):
             parameters_case(run, replay["seed"], cs["index"], parameters)
         elif k == "grains":
             grains_case(run, replay["seed"], cs["index"], grain, indexing)
+        elif k == "hdf-history":
+            c18_more.hdf_history_case(run, replay["seed"], cs["index"], columnfile, tmpd, gen_values)
+        elif k == "grain-h5-history":
+            c18_more.grain_h5_history(run, replay["seed"], cs["index"], grain, indexing, tmpd)
+        elif k == "text-reader":
+            c18_more.text_reader_case(run, replay["seed"], cs["index"], columnfile, tmpd)
+        elif k == "sparse-history":
+            c18_more.sparse_history(run, replay["seed"], cs["index"], sparseframe, tmpd)
         else:
             sparse_case(run, replay["seed"], cs["index"], sparseframe)
         run.nontrivial.update(["replay", "replay2"])
@@ -421,6 +436,20 @@ def check(run, replay=None):
         grains_case(run, run.seed, i, grain, indexing)
     for i in range(n["sp"]):
         sparse_case(run, run.seed, i, sparseframe)
+    m = dict(hh=60, gh=30, tx=60, sh=30) if run.tier == "quick" else dict(hh=3000, gh=1500, tx=3000, sh=1500)
+    for i in range(m["hh"]):
+        c18_more.hdf_history_case(run, run.seed, i, columnfile, tmpd, gen_values)
+    for i in range(m["gh"]):
+        c18_more.grain_h5_history(run, run.seed, i, grain, indexing, tmpd)
+    for i in range(m["tx"]):
+        c18_more.text_reader_case(run, run.seed, i, columnfile, tmpd)
+    for i in range(m["sh"]):
+        c18_more.sparse_history(run, run.seed, i, sparseframe, tmpd)
+    for c, k in (("hdf_history_roundtrips", 40), ("hdf_overwrites_other_titles", 20), ("hdf_mmap_reads", 10),
+                 ("grain_h5_overwrites", 20), ("grain_cross_format_reads", 20), ("text_reader_variants", 30),
+                 ("sparse_overwrites", 20), ("sparse_h5_roundtrips", 10), ("grain_h5_roundtrips", 10),
+                 ("ubi_file_roundtrips", 10)):
+        run.require_counter(c, k)
     run.require_counter("text_roundtrips", 50)
     run.require_counter("hdf_roundtrips", 50)
     run.require_counter("parameter_values_checked", 200)
